@@ -269,7 +269,7 @@ func init() {
 			for _, s := range []scheme{sInt, sT} {
 				g.schemeUse(s, k)
 				b.WriteString("\t\t{\n" + s.vals(k) + s.defF(k))
-				b.WriteString(clause(m, "curried"+s.tag, fmt.Sprintf("var c %s = %s.%s(%s)", s.curriedTy(1, k, "[]int"), pkg, m.Name, s.fn), "c"+curriedCall(s, seq(1, k)), "v"))
+				b.WriteString(clause(m, "curried"+s.tag, fmt.Sprintf("var c %s = %s.%s(%s)", s.curriedTy(1, k, "[]int"), pkg, m.Name, s.fn), curriedApply("c", s, seq(1, k)), "v"))
 				b.WriteString("\t\t}\n")
 			}
 			g.sub(m, k, k, b.String())
